@@ -2,7 +2,12 @@
      C <kind> <fw> <present> <nA> A.. <nB> B.. <nops> ops..   ops = N | S<hex>
      Q <allof|anyof> <fw> <nent> (id nroles roles..).. <nvals> vals.. <nops> ops..
      B <ro|rw> <nkeys> keys.. <nops> bops..                   bops = F L N P S<hex>
-   Output: C/Q: "<model observations> | <specification observations>"; B: returned keys.
+     R <kind> <nseg> (rowid present nA A.. nops ops..)..      one runtime symbol re-opened row after row
+     S <field> <variant> <nent> (id present nA A..).. <filter> a scan with a set filter through the cached symbol
+         filter (prefix): E | Z | =<hex> | #<hex> | A<hex> | C<n> | ! f | & f g | "|" f g
+   Output: C/Q: "<model observations> | <specification observations>"; B: returned keys;
+           R: the same per segment, segments separated by "/"; S: "<n> ids.." on both sides.
+           The model side is "-" for the composite symbols (stackedCursor is modelled in Ast/Stacked.v, C01).
    Sub-command "legacy" runs the models of the pinned (unrepaired) code instead. *)
 let tag = n_of_int 5
 
@@ -33,6 +38,32 @@ let take_ops toks =
         match r with x :: r' -> go (k - 1) (x :: acc) r' | [] -> failwith "short ops" in
       go n [] rest
   | [] -> failwith "no ops"
+
+(* (rowid present set) *)
+let take_row toks =
+  match toks with
+  | id :: present :: rest ->
+      let a, rest = take_set rest in
+      (bytes_of_hex id, (if present = "1" then Some a else None), a), rest
+  | _ -> failwith "short row"
+
+let rec take_filter toks =
+  match toks with
+  | [] -> failwith "short filter"
+  | t :: rest ->
+      let arg () = bytes_of_hex (String.sub t 1 (String.length t - 1)) in
+      (match t.[0] with
+       | 'E' | 'Z' -> FP PIsEmpty, rest
+       | '=' -> FP (PAnyEq (arg ())), rest
+       | '#' -> FP (PAnyNeq (arg ())), rest
+       | 'A' -> FP (PAllEq (arg ())), rest
+       | 'C' -> FP (PCountEq (nat_of_int (int_of_string (String.sub t 1 (String.length t - 1))))), rest
+       | '!' -> let f, r = take_filter rest in FNot f, r
+       | '&' -> let f, r = take_filter rest in let g, r = take_filter r in FAnd (f, g), r
+       | '|' -> let f, r = take_filter rest in let g, r = take_filter r in FOr (f, g), r
+       | _ -> failwith "bad filter")
+
+let ids_line l = String.concat " " (string_of_int (List.length l) :: List.map hex_of_bytes l)
 
 let () =
   let legacy = Array.length Sys.argv > 1 && Sys.argv.(1) = "legacy" in
@@ -73,6 +104,30 @@ let () =
           | _ -> [], []
         in
         print_endline (obs_line model ^ " | " ^ obs_line spec)
+    | "R" :: kind :: nseg :: rest ->
+        let rec segs k acc r = if k = 0 then List.rev acc else
+          let (_, bucket, a), r = take_row r in
+          let ops, r = take_ops r in
+          segs (k - 1) ((bucket, a, List.map parse_op ops) :: acc) r in
+        let segs = segs (int_of_string nseg) [] rest in
+        let join ll = String.concat " / " (List.map obs_line ll) in
+        let spec = List.map (fun (b, a, ops) -> spec_ops true (match b with Some _ -> a | None -> []) ops) segs in
+        let model =
+          match kind with
+          | "rs-tags" | "rs-tagsraw" | "rs-grps" -> join (setsym_reuse_run tag (List.map (fun (b, _, ops) -> (b, ops)) segs))
+          | _ -> "-" in
+        print_endline (model ^ " | " ^ join spec)
+    | "S" :: field :: _variant :: nent :: rest ->
+        let rec rows k acc r = if k = 0 then (List.rev acc, r) else
+          let (id, bucket, _), r = take_row r in rows (k - 1) ((id, bucket) :: acc) r in
+        let rows, rest = rows (int_of_string nent) [] rest in
+        let f, _ = take_filter rest in
+        let fuel = nat_of_int (2 + List.fold_left (fun m (_, b) -> max m (match b with Some l -> List.length l | None -> 0)) 0 rows) in
+        let model =
+          if String.contains field '.' then "-" else
+          match scan_run tag fuel f rows with
+          | Ok ids -> ids_line ids | Panic -> "P" | OutOfFuel -> "F" in
+        print_endline (model ^ " | " ^ ids_line (scan_spec f rows))
     | "Q" :: which :: fw :: nent :: rest ->
         let fw = fw = "1" in
         let nent = int_of_string nent in
